@@ -171,12 +171,28 @@ class Totality:
             if iv is not None:
                 argiv[i + 1] = iv
         eff = ccfg if "BITS" in self.prog.const_params(cb) else None
-        mk = ("ival", callee, eff, tuple(sorted(argiv.items())))
+        # what the caller knows about the limbs of an immutable Uint it passes on (after a bit_len test, say)
+        plimbs = {}
+        if eff is not None and eff == caller_ai.v.cfg:
+            for i, a in enumerate(term["args"]):
+                if a.get("o") in ("copy", "move") and not a["p"]:
+                    ua = caller_ai.uint_arg_of(a["l"])
+                    if ua is not None:
+                        known = {}
+                        for k_ in range(eff[1]):
+                            iv = st.iv.get(("plimb", ua, k_))
+                            if iv is not None:
+                                known[k_] = iv
+                        if known:
+                            plimbs[i + 1] = known
+        mk = ("ival", callee, eff, tuple(sorted(argiv.items())),
+              tuple(sorted((p_, tuple(sorted(d_.items()))) for p_, d_ in plimbs.items())))
         if mk not in self.ai_memo:
             self.ai_memo[mk] = None
             depth[0] += 1
             try:
-                a = absint.Analysis(self.prog.view(callee, eff), arg_intervals=argiv, ret_interval=self._ret_interval)
+                a = absint.Analysis(self.prog.view(callee, eff), arg_intervals=argiv, ret_interval=self._ret_interval,
+                                    arg_plimbs=plimbs)
                 self.ai_memo[mk] = a.return_interval()
             except RuntimeError:
                 self.ai_memo[mk] = None
@@ -626,6 +642,16 @@ class Totality:
                         or (r.get("what_re") and re.fullmatch(r["what_re"], base)):
                     self._row_owner = owner
                     return r
+        # `panic!#switch` / `panic!#match`: the marker only says how the branch in front of an explicit panic is spelled
+        # (`match flag { true => panic!() }` vs `match option { None => panic!() }`)
+        nb = re.sub(r"#(switch|match)\b", "#branch", base)
+        if nb != base or "#switch" in base or "#match" in base:
+            cands = [(owner, r) for owner in owners for r in (self.table.get(owner) or ())
+                     if r.get("kind", kind) == kind and r.get("what")
+                     and re.sub(r"#(switch|match)\b", "#branch", re.sub(r"~\d+$", "", r["what"])) == nb]
+            if len(cands) == 1:
+                self._row_owner = cands[0][0]
+                return cands[0][1]
         if unique_norm and (kind.startswith("assert:") or kind == "diverge"):
             nw = self.norm_what(what)
             cands = [(owner, r) for owner in owners for r in (self.table.get(owner) or ())
@@ -918,6 +944,49 @@ class Totality:
                     return "dominated by non-zero test at %s" % view.where(b)
         return None
 
+    def bool_zero_truth(self, view, d, root):
+        """For a bool operand that is a zero test of `root` (is_zero / == ZERO / != ZERO, negations, in either polarity):
+        the truth value that means `root` IS zero; None if the operand is no such test."""
+        if not (d.get("o") in ("copy", "move") and not d["p"]):
+            return None
+        ch = view.chase(d)
+        neg = False
+        hops = 0
+        while ch[0] == "rv" and ch[1]["r"] == "un" and ch[1]["op"] == "Not" and hops < 4:
+            ch = view.chase(ch[1]["a"])
+            neg = not neg
+            hops += 1
+        zero_truth = None
+        if ch[0] == "call":
+            ct = ch[1]
+            spec = self.ZERO_TESTS.get(ir.callee_name(ct["fn"]))
+            if spec is None:
+                return None
+            kind, truth_means_zero = spec
+            if ir.is_negated_forward(ct["fn"]):
+                truth_means_zero = not truth_means_zero
+            if kind == "unary":
+                if self._value_root(view, ct["args"][0]) != root:
+                    return None
+            else:
+                a, c = ct["args"][0], ct["args"][1]
+                ra, rc = self._value_root(view, a), self._value_root(view, c)
+                za, zc = self._const_zero_arg(view, a), self._const_zero_arg(view, c)
+                if not ((ra == root and zc) or (rc == root and za)):
+                    return None
+            zero_truth = truth_means_zero
+        elif ch[0] == "rv" and ch[1]["r"] == "bin" and ch[1]["op"] in ("Eq", "Ne"):
+            rv = ch[1]
+            ra = self._value_root(view, rv["a"]) if rv["a"].get("o") != "const" else None
+            rb = self._value_root(view, rv["b"]) if rv["b"].get("o") != "const" else None
+            ca, cb = view.const_of_operand(rv["a"]), view.const_of_operand(rv["b"])
+            if not ((ra == root and cb == 0) or (rb == root and ca == 0)):
+                return None
+            zero_truth = (rv["op"] == "Eq")
+        else:
+            return None
+        return (not zero_truth) if neg else zero_truth
+
     def zero_test_edges(self, view, root):
         """[(block, succ)]: edges of switches on which the Uint / integer local `root` is known to be ZERO
         (is_zero / == ZERO / != ZERO in either polarity, resolved like the D-zero guards)."""
@@ -926,45 +995,9 @@ class Totality:
             t = view.blocks[b]["term"]
             if t["t"] != "switch":
                 continue
-            d = t["discr"]
-            if not (d.get("o") in ("copy", "move") and not d["p"]):
+            zero_truth = self.bool_zero_truth(view, t["discr"], root)
+            if zero_truth is None:
                 continue
-            ch = view.chase(d)
-            neg = False
-            if ch[0] == "rv" and ch[1]["r"] == "un" and ch[1]["op"] == "Not":
-                ch = view.chase(ch[1]["a"])
-                neg = True
-            zero_truth = None
-            if ch[0] == "call":
-                ct = ch[1]
-                spec = self.ZERO_TESTS.get(ir.callee_name(ct["fn"]))
-                if spec is None:
-                    continue
-                kind, truth_means_zero = spec
-                if ir.is_negated_forward(ct["fn"]):
-                    truth_means_zero = not truth_means_zero
-                if kind == "unary":
-                    if self._value_root(view, ct["args"][0]) != root:
-                        continue
-                else:
-                    a, c = ct["args"][0], ct["args"][1]
-                    ra, rc = self._value_root(view, a), self._value_root(view, c)
-                    za, zc = self._const_zero_arg(view, a), self._const_zero_arg(view, c)
-                    if not ((ra == root and zc) or (rc == root and za)):
-                        continue
-                zero_truth = truth_means_zero
-            elif ch[0] == "rv" and ch[1]["r"] == "bin" and ch[1]["op"] in ("Eq", "Ne"):
-                rv = ch[1]
-                ra = self._value_root(view, rv["a"]) if rv["a"].get("o") != "const" else None
-                rb = self._value_root(view, rv["b"]) if rv["b"].get("o") != "const" else None
-                ca, cb = view.const_of_operand(rv["a"]), view.const_of_operand(rv["b"])
-                if not ((ra == root and cb == 0) or (rb == root and ca == 0)):
-                    continue
-                zero_truth = (rv["op"] == "Eq")
-            else:
-                continue
-            if neg:
-                zero_truth = not zero_truth
             for s_ in view.succ.get(b, []):
                 vals = [v_ for v_, bb in t["targets"] if bb == s_]
                 truths = {bool(v_) for v_ in vals}
@@ -1219,7 +1252,7 @@ class Totality:
                     if tk in targets:
                         verdict = self._discharge_at_call(view, a, st, bi, t, rs)
                     else:
-                        verdict = None
+                        verdict = self._discharge_closure_preds(view, bi, t, tk, rs, name)
                     if verdict:
                         self.stats["discharged"] += 1
                         self.discharge_log.append((key, cfg, "call->" + rs.site_key(), view.where(bi), verdict))
@@ -1243,7 +1276,13 @@ class Totality:
                         for pr in rs.preds:
                             if pr[0] == "nonzero" and 0 <= pr[1] - 1 < len(t["args"]):
                                 rp = self._root_param(view, t["args"][pr[1] - 1])
-                                if rp is not None:
+                                if rp == 1 and body["kind"] == "Closure":
+                                    # the divisor is a captured variable: the creator of the closure must establish it
+                                    from .rules.facade import upvar_of
+                                    uk = upvar_of(view, t["args"][pr[1] - 1])
+                                    if uk is not None:
+                                        preds.append(("nonzero-upvar", uk))
+                                elif rp is not None:
                                     preds.append((pr[0], rp))
                     out.append(Residual(rs.origin_fn, rs.origin_kind, rs.origin_what, rs.origin_where,
                                         rs.origin_macro, [key] + rs.chain, guards, preds))
@@ -1537,6 +1576,30 @@ class Totality:
                     return "same length by intervals"
             return None
         return None
+
+    def _discharge_closure_preds(self, view, bi, t, ck, rs, name):
+        """A closure handed to a combinator needs a captured variable to be non-zero: established when the call is
+        dominated by a non-zero test of that variable, or when the combinator is `bool::then` and its receiver IS such
+        a test (`(!d.is_zero()).then(|| n % d)`: the closure runs only when the receiver is true)."""
+        ups = [pr for pr in rs.preds if pr[0] == "nonzero-upvar"]
+        if not ups or len(ups) != len(rs.preds):
+            return None
+        from .rules.facade import captured_operand
+        why = []
+        for _n, uk in ups:
+            cap = captured_operand(view, ck, uk)
+            if cap is None:
+                return None
+            g = self.nonzero_guarded(view, bi, cap)
+            if g is None and name == "core::bool::<impl bool>::then" and t["args"]:
+                root = self._value_root(view, cap)
+                zt = self.bool_zero_truth(view, t["args"][0], root) if root is not None else None
+                if zt is False:
+                    g = "bool::then on a non-zero test of the captured divisor"
+            if g is None:
+                return None
+            why.append(g)
+        return "D-zero (closure): " + "; ".join(why)
 
     def _discharge_at_call(self, view, a, st, bi, t, rs):
         """Can the caller refute one of the callee-site's guards / establish its predicates?"""
